@@ -55,6 +55,21 @@ CHECKS.update({
     note='scipy.signal.lsim (compiled numerical code) is NOT encoded: accuracy of the simulated trajectory, agreement with the exact response for piecewise-linear inputs and settling to the DC / periodic steady state are outside this claim (they follow from lsim\'s documented contract together with C10 / C11).' + COMMON_NOTE, ref='DESIGN.md §3 C12'),
 })
 
+CHECKS.update({
+ 'C03': dict(technique=TECH + '; relational configurations (variant mapped back onto the base tableau); symbolic label order',
+    text='Bounded symbolic verification of relational configurations: a base description and a variant (renamed with symbolic label order or kind-interleaving names, permuted listing, reversed subset with negated source values, another reference node); the real code runs on the variant and its reported quantities, mapped back, are shown by z3 to satisfy the tableau built from the BASE description for all values; by uniqueness base and variant agree up to the renaming, the sign flip of reversed elements and a common potential shift. Levels: network solver, ComplexSolution at symbolic w, port impedance with swapped nodes, state space / transient through the renamed, shuffled and symbolic-order members of the C10 / C12 families.',
+    note='Bounds: bases up to 3 nodes / 3 branches (thorough: samples up to 4 / 5), 1-3 seeded variants each plus a symbolic-order variant for small bases; seeded subsets of the C02 and C06 configuration sets.' + COMMON_NOTE, ref='DESIGN.md §3 C03'),
+ 'C17': dict(technique=TECH + '; CrossHair 0.0.110 (symbolic execution of Python with z3) for string-valued inputs', engine='symx',
+    text='Bounded symbolic verification of both loader tables and the complex-value (de)serialisation helpers: every kind is loaded from an entry with symbolic numbers (id, terminals, kind, every value discharged as identities; the description compared deeply before / after; second load equal to first); Cartesian and polar (radian / degree) notations denote the same number (angle atoms); nested documents of five shapes survive dictify / undictify and serialize / deserialize for json, yaml, yml unchanged and unmutated; CrossHair confirms over all paths the same for symbolic identifier and node strings. The harness fails when a loader table gains a key it does not know.',
+    note='The real json / yaml encoders (C code) are stubs (identity on representable trees, rejecting complex leaves) in symbolic mode and the real libraries in concrete replay and in a concrete sanity sweep. Document keys other than the reserved words real / imag / abs / phase / phase_deg. CrossHair domains: identifiers <= 2 characters.', ref='DESIGN.md §3 C17'),
+ 'C19': dict(technique=TECH + '; CrossHair 0.0.110 for symbolic strings / positions', engine='symx',
+    text='Bounded symbolic verification of rejection rules: every sign rule of every constructor in components.py and the reference rules of elements.load with the constrained parameter a symbolic real (comparison forks; negative rejected, otherwise accepted and stored unaltered); CrossHair confirms over all paths that duplicate identifiers, a floating reference and multiple grounds are rejected at any position for symbolic strings, that unknown types / waveforms / missing fields are rejected by both loaders; unknown identifiers must raise against network, DC, complex, time-domain, frequency-domain and transient solutions; the declarative front end\'s dispatch table is enumerated completely.',
+    note='CrossHair domains: identifier strings <= 2 characters, lists <= 4. Rejection at construction or loading with any documented exception type counts.', ref='DESIGN.md §3 C19'),
+ 'C20': dict(technique='inductive frame check by symbolic execution (module-state snapshot + argument object graphs + repeated-call identity) with z3-decided paths; AST scan; CrossHair for loader purity',
+    text='One inductive step per public operation (33 operations of C01-C12, C16, C17) from a pristine module state with symbolic arguments: afterwards every CircuitCalculator module\'s global containers, function defaults, keyword defaults, closure cells and class-level containers equal their snapshot, every argument object graph is structurally unchanged, and the call repeated after an interleaved call on another circuit returns the identical symbolic result on every path. Induction over call sequences then gives history independence for sequences of any length.',
+    note='State inside numpy / scipy (C level) is outside the snapshot; the operation list is finite and stated in evidence.', ref='DESIGN.md §3 C20'),
+})
+
 NOT_YET = {}
 
 def main():
